@@ -921,6 +921,8 @@ def sym_int(x, *a):
 
 
 def sym_float(x=0.0):
+    if _np is not None and isinstance(x, _np.ndarray) and x.dtype == object and x.shape == ():
+        x = x.item()
     if isinstance(x, SReal):
         return x
     if isinstance(x, SInt):
@@ -975,9 +977,43 @@ def sym_ufun(name, x, axioms=None):
     key = (name, sz.get_id())
     if key in ENG.memo:
         return ENG.memo[key][1]
+    # an argument provably equal (under the path condition) to an earlier one gets the very same variable.
+    # The outcome is recorded in the decision script so that re-execution of a prefix cannot diverge on a solver timeout.
+    prevs = ENG.memo.get('ufun!' + name, [])
+    if prevs:
+        pos = len(ENG.script)
+        if pos < len(ENG.prefix):
+            ent = ENG.prefix[pos]
+            if not (isinstance(ent, tuple) and ent[0] == 'u'):
+                raise RuntimeError('replay divergence: expected a function-congruence entry, script has %r' % (ent,))
+        else:
+            hit = -1
+            base = max(0, len(prevs) - 8)
+            for k in range(base, len(prevs)):
+                aj = prevs[k][0]
+                ENG.s.set('timeout', 400)
+                t0 = time.time()
+                rr = ENG.s.check(sz != aj)
+                ENG._count(rr, time.time() - t0)
+                ENG.s.set('timeout', ENG.branch_timeout_ms)
+                if rr == z3.unsat:
+                    hit = k
+                    break
+            ent = ('u', hit)
+        ENG.script.append(ent)
+        if ent[1] >= 0:
+            out = SReal(prevs[ent[1]][1])
+            ENG.memo[key] = (sz, out)
+            return out
     r = ENG.fresh_real(name)
     out = SReal(r)
     ENG.memo[key] = (sz, out)
+    # functional consistency with the earlier applications of the same function on this path (equal arguments => equal values):
+    # implied by 'it is a function', so adding it assumes nothing
+    prev = ENG.memo.setdefault('ufun!' + name, [])
+    for (aj, rj) in prev[-8:]:
+        ENG.assume(z3.Implies(sz == aj, r == rj), check=False)
+    prev.append((sz, r))
     if axioms is not None:
         for c in axioms(SReal(sz), out):
             ENG.assume(c)
